@@ -150,25 +150,25 @@ theorem C17_refuse_stateless (P : Proto) (c : Cfg) (tid : Nat) :
 /-- **`CreateConnection` as found** (check under `RLock`, insert later under `Lock`; repaired by
 `fix:` d41560d): two admissions at `limit-1` both pass the check, both insert. -/
 theorem C17_conn_asFound_witness :
-    holds true 1 0 (run protoConnAsFound 1 (init 0 [(0, [.admit]), (0, [.admit])]) [0, 1, 0, 1]).trace
-      (run protoConnAsFound 1 (init 0 [(0, [.admit]), (0, [.admit])]) [0, 1, 0, 1]).occ = false := by decide
+    holds true 1 0 (run protoConnAsFound 1 (init 0 [(0, [.acquire]), (0, [.acquire])]) [0, 1, 0, 1]).trace
+      (run protoConnAsFound 1 (init 0 [(0, [.acquire]), (0, [.acquire])]) [0, 1, 0, 1]).occ = false := by decide
 
 /-- **Mapping handler as found** (`Load`, check, separate `Add`; repaired by `fix:` 3a408d4). -/
 theorem C17_map_asFound_witness :
-    holds true 2 1 (run protoMapAsFound 2 (init 1 [(0, [.admit]), (0, [.admit])]) [0, 1, 0, 1]).trace
-      (run protoMapAsFound 2 (init 1 [(0, [.admit]), (0, [.admit])]) [0, 1, 0, 1]).occ = false := by decide
+    holds true 2 1 (run protoMapAsFound 2 (init 1 [(0, [.acquire]), (0, [.acquire])]) [0, 1, 0, 1]).trace
+      (run protoMapAsFound 2 (init 1 [(0, [.acquire]), (0, [.acquire])]) [0, 1, 0, 1]).occ = false := by decide
 
 /-- **Quotas as found** (count-then-create without mutual exclusion; repaired for one service
 instance by `fix:` 1ae17b0). -/
 theorem C17_code_asFound_witness :
-    holds false 1 0 (run protoCodeAsFound 1 (init 0 [(0, [.admit]), (0, [.admit])]) [0, 1, 0, 1, 0, 1, 0, 1, 0, 1]).trace
-      (run protoCodeAsFound 1 (init 0 [(0, [.admit]), (0, [.admit])]) [0, 1, 0, 1, 0, 1, 0, 1, 0, 1]).occ = false := by decide
+    holds false 1 0 (run protoCodeAsFound 1 (init 0 [(0, [.acquire]), (0, [.acquire])]) [0, 1, 0, 1, 0, 1, 0, 1, 0, 1]).trace
+      (run protoCodeAsFound 1 (init 0 [(0, [.acquire]), (0, [.acquire])]) [0, 1, 0, 1, 0, 1, 0, 1, 0, 1]).occ = false := by decide
 
 /-- **Two service instances on one store (known finding `quota-multi-node`).** The mutex is per
 process: two nodes sharing the store each hold only their own, both count `limit-1`, both create. -/
 theorem C17_quota_two_instances_witness :
-    holds false 1 0 (run protoMapq 1 (init 0 [(0, [.admit]), (1, [.admit])]) [0, 1, 0, 1, 0, 1]).trace
-      (run protoMapq 1 (init 0 [(0, [.admit]), (1, [.admit])]) [0, 1, 0, 1, 0, 1]).occ = false := by decide
+    holds false 1 0 (run protoMapq 1 (init 0 [(0, [.acquire]), (1, [.acquire])]) [0, 1, 0, 1, 0, 1]).trace
+      (run protoMapq 1 (init 0 [(0, [.acquire]), (1, [.acquire])]) [0, 1, 0, 1, 0, 1]).occ = false := by decide
 
 /-! ## Ties to the source (T1 / T2): a change of these breaks a proof and forces a re-check -/
 
@@ -398,17 +398,17 @@ theorem C17_code_steps :
 /-- Three admissions race at `limit-1 = 1` of 2 through `CreateConnection`: one is admitted at the
 re-check, the others are refused (one early, one at the re-check), the cap holds at every step. -/
 example :
-    (run protoConn 2 (init 1 [(0, [.admit]), (0, [.admit]), (0, [.admit])]) [0, 1, 0, 2, 1]).trace
+    (run protoConn 2 (init 1 [(0, [.acquire]), (0, [.acquire]), (0, [.acquire])]) [0, 1, 0, 2, 1]).trace
       = [.stp 0 1, .stp 1 1, .adm 0 1 none 2, .ref 2 false 2, .ref 1 false 2] := by decide
 
 /-- Eviction at the control cap. -/
 example :
-    (run protoCtrl 2 (init 2 [(0, [.admit, .release]), (0, [.admit])]) [0, 1, 0]).trace
+    (run protoCtrl 2 (init 2 [(0, [.acquire, .release]), (0, [.acquire])]) [0, 1, 0]).trace
       = [.adm 0 2 (some 0) 2, .adm 1 3 (some 1) 2, .rel 0 2 1] := by decide
 
 /-- The code quota: the second request waits for the mutex, then counts 2 of 2 and is refused. -/
 example :
-    (run protoCode 2 (init 1 [(0, [.admit]), (0, [.admit])]) [0, 1, 0, 0, 0, 0, 0, 0, 1, 1, 1, 1]).trace
+    (run protoCode 2 (init 1 [(0, [.acquire]), (0, [.acquire])]) [0, 1, 0, 0, 0, 0, 0, 0, 1, 1, 1, 1]).trace
       = [.stp 0 1, .blk 1 1, .stp 0 1, .stp 0 1, .stp 0 1, .stp 0 1, .stp 0 1, .adm 0 1 none 2,
          .stp 1 2, .stp 1 2, .stp 1 2, .ref 1 false 2] := by decide
 
